@@ -42,11 +42,44 @@ func admitSteps(deps [][]int, exec string) []dag.Step {
 	return steps
 }
 
+var admitRetryHangs int
+
 func AdmitRecord(deps [][]int) Ev {
-	_, err := scheduler.NewExecutionGraph(quietLogger, admitSteps(deps, "")...)
-	e := Ev{"kind": "graph", "n": len(deps), "deps": deps, "accepted": err == nil, "err": ""}
+	steps := admitSteps(deps, "")
+	_, err := scheduler.NewExecutionGraph(quietLogger, steps...)
+	e := Ev{"kind": "graph", "n": len(deps), "deps": deps, "accepted": err == nil, "err": "", "retry": "skipped"}
 	if err != nil {
 		e["err"] = err.Error()
+	}
+	// the same graph as the recorded steps of an earlier run (first step failed, the others canceled) handed to the
+	// constructor a retry uses: a record is not admitted either unless its graph is well-formed. A wrongly admitted
+	// cycle can make the constructor's own walk spin for ever: bounded wait, and no further calls after three hangs
+	// (the abandoned goroutines keep a core busy each)
+	if admitRetryHangs < 3 {
+		nodes := make([]*scheduler.Node, len(steps))
+		for i, st := range steps {
+			status := scheduler.NodeStatusCancel
+			if i == 0 {
+				status = scheduler.NodeStatusError
+			}
+			nodes[i] = scheduler.NewNode(st, scheduler.NodeState{Status: status})
+		}
+		done := make(chan error, 1)
+		go func() {
+			_, rerr := scheduler.NewExecutionGraphForRetry(quietLogger, nodes...)
+			done <- rerr
+		}()
+		select {
+		case rerr := <-done:
+			if rerr == nil {
+				e["retry"] = "accepted"
+			} else {
+				e["retry"] = "refused"
+			}
+		case <-time.After(3 * time.Second):
+			admitRetryHangs++
+			e["retry"] = "hung"
+		}
 	}
 	return e
 }
